@@ -1,8 +1,8 @@
 // Driver: reads scripts from stdin, runs the *rendered, unmodified* Naunet
 // class against the mock integrator, prints one result line per Solve call.
 //
-//   run <id> <nsolve> <nsys>
-//   solve <mode> <reset> <mxsteps> <dt> <ny0> <y0...>            (all variants)
+//   run <id> <nsolve> <nsys> [<overlap: keep the previous object alive during this run>]
+//   solve <mode> <reset: 0 no, 1 Reset(), 2 Finalize()+Init()+Reset()> <mxsteps> <dt> <ny0> <y0...>            (all variants)
 //         cvode : <nout> (<flag> <frac>)* <nre> (<k> <flag>)* <setup_idx> <setup_flag> <tail_on> <tail_flag> <tail_frac>
 //         odeint: <nsteps> <shape> <throw_at> <throw_kind>
 //
@@ -135,6 +135,8 @@ int main(int argc, char **argv) {
     char *line = NULL;
     size_t cap = 0;
     Naunet *naunet = NULL;
+    Naunet *older = NULL;  // an earlier object kept alive while the next one works (overlapping lifetimes)
+    NaunetData *older_data = NULL;
     int nsolve_left = 0, nsys = 1, solve_idx = 0;
     NaunetData *data = NULL;
     if (truncate(RECORD, 0) != 0) {
@@ -145,20 +147,34 @@ int main(int argc, char **argv) {
         const char *tok = strtok_r(line, " \t\r\n", &save);
         if (!tok) continue;
         if (strcmp(tok, "run") == 0) {
-            if (naunet) {
-                naunet->Finalize();
-                delete naunet;
-                naunet = NULL;
-                delete[] data;
-                data = NULL;
-                read_record_and_truncate();
-            }
             TOK();
             g_cur_run = atol(tok);
             TOK();
             nsolve_left = atoi(tok);
             TOK();
             nsys = atoi(tok);
+            int overlap = 0;
+            if (next_tok(save, tok)) overlap = atoi(tok);
+            if (older) {
+                older->Finalize();
+                delete older;
+                older = NULL;
+                delete[] older_data;
+                older_data = NULL;
+            }
+            if (naunet) {
+                if (overlap) {
+                    older = naunet;  // stays initialised (its record file open) during the next run
+                    older_data = data;
+                } else {
+                    naunet->Finalize();
+                    delete naunet;
+                    delete[] data;
+                }
+                naunet = NULL;
+                data = NULL;
+                read_record_and_truncate();
+            }
             solve_idx = 0;
             naunet = new Naunet();
             data = new NaunetData[nsys > 0 ? nsys : 1]();
@@ -242,6 +258,12 @@ int main(int argc, char **argv) {
         TOK();
         g_mock.tail.frac = strtod(tok, NULL);
 #endif
+        if (do_reset == 2) {
+            // the user shuts the object down and initialises it again before this call
+            naunet->Finalize();
+            int irc = naunet->Init(nsys, 1e-20, 1e-5, 500);
+            if (irc != NAUNET_SUCCESS) printf("initfail %ld %d\n", g_cur_run, irc);
+        }
         if (do_reset || solve_idx == 0) {
             // mxsteps is fixed by Init/Reset; first solve always (re)sets it
             int rrc = naunet->Reset(nsys, 1e-20, 1e-5, mxsteps);
@@ -303,6 +325,11 @@ int main(int argc, char **argv) {
 #endif
         solve_idx += 1;
         nsolve_left -= 1;
+    }
+    if (older) {
+        older->Finalize();
+        delete older;
+        delete[] older_data;
     }
     if (naunet) {
         naunet->Finalize();
